@@ -28,7 +28,7 @@
 //! The writer is lent out from the push that found it idle until the `D` op, i.e. for a drawn number of ops.
 //! At the end every remote is drained (`D` until nothing is outstanding).
 //! The generator follows the write task's protocol: data and synced for a lane only between its Linked and its
-//! Unlinked (in push order); ops violating it in a hand-written sequence are executed as written.
+//! Unlinked (in push order); ops violating it in a shrunk or hand-written sequence are skipped.
 //!
 //! Reference model per remote (from C04 / C03 and the doc comments of `Uplinks`): FIFO of specials; per lane the
 //! pending data - value lane: the newest value; supply lane: every item in order; map lane: a coalescing queue
@@ -1113,8 +1113,34 @@ fn run_seq(seq: &Seq, ctx: &mut SeqCtx<'_>) -> Result<(), String> {
         });
     }
     let mut run = Run { seq, ctx, tracker, lane_ids, classes: key_classes(), remotes, nontrivial: false, harness_error: None };
+    // The write task's protocol, in push order: data and synced for a lane only between its Linked and its Unlinked,
+    // no second Linked, no Unlinked without a link. The generator follows it; an op of a shrunk or hand-written
+    // sequence that does not is skipped, so that every op sequence is a legal one.
+    let mut plink = vec![vec![false; seq.lanes.len()]; seq.remotes];
     for (i, op) in ops.iter().enumerate() {
         let oi = i + 1;
+        let legal = match *op {
+            Op::Push(r, l, _) => plink.get(r).and_then(|v| v.get(l)).copied().unwrap_or(false),
+            Op::Linked(r, l) => match plink.get_mut(r).and_then(|v| v.get_mut(l)) {
+                Some(x) if !*x => {
+                    *x = true;
+                    true
+                }
+                _ => false,
+            },
+            Op::Unlinked(r, l) => match plink.get_mut(r).and_then(|v| v.get_mut(l)) {
+                Some(x) if *x => {
+                    *x = false;
+                    true
+                }
+                _ => false,
+            },
+            Op::NotFound(r) | Op::Done(r) => r < seq.remotes,
+        };
+        if !legal {
+            run.ctx.count("ops.skipped_not_in_protocol", 1);
+            continue;
+        }
         match *op {
             Op::Push(r, l, d) => run.push(oi, r, l, d),
             Op::Linked(r, l) => run.push_special(oi, r, Special::Linked(l)),
